@@ -101,3 +101,23 @@ fn time_deadline_second() {
     let now = Time::now();
     assert!(cleanup_bucket(now) == s0 as i64);
 }
+
+//@harness time_due_bucket_implies_expired props=C05,C04 target=Time::is_expired bounded=no claim=(the axiom assumed in prelude/time_model.rs) if the storage bucket of a TTL deadline (deadline second + 1) is not after the current second then the entry is expired at that instant; so every entry found in a due bucket under its own deadline is really expired
+#[kani::proof]
+#[kani::stub(std::time::SystemTime::now, fake_now)]
+#[kani::unwind(3)]
+fn time_due_bucket_implies_expired() {
+    let (s0, n0) = any_instant();
+    let (s1, n1) = any_instant();
+    let (ds, dn) = any_instant();
+    kani::assume((s1, n1) >= (s0, n0));
+    kani::assume(ds > 0 || dn > 0);
+    set_now(s0, n0);
+    let t = Time::now_with_expiration(Duration::new(ds, dn));
+    set_now(s1, n1);
+    let now = Time::now();
+    if storage_bucket(t) <= cleanup_bucket(now) {
+        assert!(t.is_expired());
+    }
+    kani::cover!(storage_bucket(t) <= cleanup_bucket(now), "due case reachable");
+}
